@@ -186,7 +186,7 @@ Section XmlWalk.
      a separator before each (third party; the run compares) *)
   Definition x_render (names : list (list N)) (k : list N) : list N := flat_map (fun n => 47 :: n) names ++ 47 :: k.
 
-  (* names: the elements above x; root: x is the document element *)
+  (* names: the elements above x; root: x is the document element opened by key (not used: the classes are loaded without a root key) *)
   Fixpoint vwalk_x (t : vty) (names : list (list N)) (root : bool) (x : xnode) (m : vmap) {struct t} : vres :=
     match t with
     | VLeaf ty => of_lout (load_xml_inner xstrtod xstrtof o root ty x) m
@@ -253,7 +253,7 @@ Section XmlWalk.
       end
     end.
 
-  Definition vload_xml (t : vty) (root : xnode) : vres := vwalk_x t [] true root [].
+  Definition vload_xml (t : vty) (root : xnode) : vres := vwalk_x t [] false root [].
 End XmlWalk.
 
 (* ------------------------------------------------------------------ from text *)
